@@ -266,7 +266,8 @@ class Fresh:
                         res |= self.eval(df.stmt.target, df.node, s2)
                     elif df.kind == "iter":
                         res |= self.eval(df.value, df.node, s2)
-                    elif df.kind in ("assign", "with"):
+                    elif df.kind in ("assign", "with", "unpack"):
+                        # unpacking a sequence yields its elements: views of the same storage for arrays
                         res |= self.eval(df.value, df.node, s2)
                     else:
                         res.add(UNKNOWN)
